@@ -122,7 +122,11 @@ TFWrite ==
            THEN /\ WritePoisoned(e.shape)
                 /\ e.res # "panic" /\ (e.fired => e.res = "io_injected")
            ELSE IF e.fired
-           THEN e.res = "io_injected" /\ WriteFails(e.shape, 1, 0)
+           THEN /\ e.res = "io_injected"
+                \* which operation failed matters only in that a failure before any byte was emitted is clean
+                /\ IF hType # 0 /\ status = "live" /\ e.fxShp = << >> /\ e.fxShx = << >>
+                   THEN WriteFails(e.shape, 1, 0)
+                   ELSE IF hType # 0 THEN WriteFails(e.shape, 1, 1) ELSE WriteFails(e.shape, 1, 0)
            ELSE e.res = "ok" /\ (WriteOk(e.shape) \/ WriteTorn(e.shape))
 
 TFFinalize ==
